@@ -56,6 +56,14 @@ CLAIMED = {
          "reproduced exactly and via master weights, IUP-optimised deltas reconstruct within tolerance, VarStore optimize/subset/prune preserve "
          "values (testing). Not proved: the full solve_exact theorem and the support construction of VariationModel.",
          "Rocq proof over Q of the delta core and tent algebra + correspondence of the solver/normalisation models + exact-arithmetic sweeps"),
+ "C14": ("Theorems over exact rationals: Transform composition and inverse act on points as documented, affine maps commute with "
+         "Bezier interpolation, reversing a path (segments reversed, control points reversed) negates AreaPen's signed area and is an "
+         "involution, the quadratic/line/cubic area formulas are mutually consistent (degree elevation), translation changes each segment's "
+         "area by a telescoping boundary term. Transform, AreaPen and the whole of reversedContour are modelled; reversedContour is tied to the "
+         "code by exact call-list correspondence. On the implementation: every adapter (record/replay, segment<->point, transform, reverse "
+         "(both protocols), bounds, TTGlyphPen/TTGlyphPointPen with dropImpliedOnCurves, T2CharStringPen, super-bezier and quadratic "
+         "decomposition) is compared through an independent canonical geometry (testing).",
+         "Rocq proof over Q of transform/area/reversal algebra + exact correspondence of reversedContour + canonical-geometry sweeps"),
 }
 
 def main():
